@@ -245,6 +245,9 @@ def install_mutations(w):
     w.method_effects = dict(getattr(w, "method_effects", {}))
     w.method_effects.update({"replace_input_with": [(NODE, "inputs")], "remove": [(GRAPH, "nodes")]})
 
+    def hv(ex):
+        return ex.ghost.get("heap_version", z3.IntVal(0))
+
     def rauw(ex, args, kw):
         a, b = args[0], args[1]
         flag = kw.get("replace_graph_outputs", VBool(False))
@@ -258,7 +261,10 @@ def install_mutations(w):
         g = z3.Const("g!rw", ref_sort(GRAPH))
         newo = z3.Lambda([g], z3.Lambda([i], z3.If(z3.And(ex.truthy(flag), sel(sel(o[0], g), i) == a.term), b.term, sel(sel(o[0], g), i))))
         ex.heap[(GRAPH, "outputs")] = [newo, o[1]]
+        hv_old = hv(ex)
         bump(ex)
+        for h in getattr(w, "rauw_frame_hooks", ()):
+            h(ex, a, b, hv_old, hv(ex))
         return NONE
     w.path_models["onnx_ir.convenience.replace_all_uses_with"] = rauw
     w.method_effects["replace_all_uses_with"] = [(NODE, "inputs"), (GRAPH, "outputs")]
@@ -353,9 +359,13 @@ def install_mutations(w):
                             note="the nodes of `nodes` that have the value among their inputs (value names are unique after NameFixPass, so the name-based fallback agrees)"))
 
     attr_int = w.fn("attr_as_int", ref_sort(ATTR), z3.IntSort())
-    w.add_contract(Contract(f"{MO}:_get_attr", params={"node": Ref(NODE), "name": Str}, ret=Opt(Ref(ATTR)), assumed=True, uf=True, reads_heap=True, note="node.attributes.get(name) if it is an ir.Attr"))
+    attr_of = w.fn("attr_of", N, z3.StringSort(), z3.IntSort(), ref_sort(ATTR))     # (node, name, heap version); null when absent
+    w.add_contract(Contract(f"{MO}:_get_attr", params={"node": Ref(NODE), "name": Str}, ret=Opt(Ref(ATTR)), assumed=True,
+                            ensures=[("is_the_named_attribute", lambda c: (attr_of(c["node"].term, c["name"].term, hv(c.ex)) == null_of(ATTR)) if isinstance(c.result, VNone) else (c.result.term == attr_of(c["node"].term, c["name"].term, hv(c.ex))))],
+                            note="node.attributes.get(name) if it is an ir.Attr, else None"))
+    w.graph_attr_of = attr_of
     w.add_contract(Contract(f"{MO}:_attr_to_int", params={"attr": Opt(Ref(ATTR))}, ret=Opt(Int), assumed=True,
-                            ensures=[("is", lambda c: z3.BoolVal(True) if isinstance(c.result, VNone) or isinstance(c["attr"], VNone) else c.result.term == attr_int(c["attr"].term))],
+                            ensures=[("is", lambda c: z3.BoolVal(isinstance(c.result, VNone)) if isinstance(c["attr"], VNone) else (z3.BoolVal(True) if isinstance(c.result, VNone) else c.result.term == attr_int(c["attr"].term)))],
                             note="integer payload of an INT/INTS attribute"))
     w.fields[(ATTR, "type")] = Enum("AttributeType")
     attr_ints_len = w.fn("attr_ints_len", ref_sort(ATTR), z3.IntSort())
